@@ -11,7 +11,7 @@ STD_DERIVES = {'Clone', 'Copy', 'PartialEq', 'Eq', 'Debug', 'Default', 'Hash', '
 
 
 # ------------------------------------------------------------------------------ R1
-def strip_attrs_and_vis(text, keep_derives=True, drop_derives=()):
+def strip_attrs_and_vis(text, keep_derives=True, drop_derives=(), plain=False):
     """Drop doc comments, visibility qualifiers and non-std attributes of an item (applied
     to the whole item text: also to struct fields / enum variants)."""
     m = mask(text)
@@ -27,7 +27,8 @@ def strip_attrs_and_vis(text, keep_derives=True, drop_derives=()):
             names = [x.strip() for x in dm.group(1).split(',') if x.strip()]
             kept = [x for x in names if x.split('::')[-1] in STD_DERIVES and x.split('::')[-1] not in drop_derives]
             # Debug / Default / Hash / Ord are dropped unless asked: Verus handles Clone/Copy/PartialEq/Eq
-            kept = [x for x in kept if x.split('::')[-1] in ('Clone', 'Copy', 'PartialEq', 'Eq')]
+            if not plain:
+                kept = [x for x in kept if x.split('::')[-1] in ('Clone', 'Copy', 'PartialEq', 'Eq')]
             if kept:
                 rep = '#[derive(%s)]' % ', '.join(kept)
         elif re.match(r'(inline|must_use|allow|default)\b', body):
@@ -501,7 +502,7 @@ def transform_fn(text, spec):
     lbody = spec.get('loopbody', {})
     lafter = spec.get('afterloop', {})
     r7 = spec.get('r7', set())
-    for n in list(lspec) + list(lbody) + list(lafter) + list(r7):
+    for n in list(lspec) + list(lbody) + list(lafter) + list(r7) + list(spec.get('loopend', {})):
         if n >= len(sh.loops):
             raise ExtractError('fn %s: loop ordinal %d not found (has %d loops)' % (sh.name, n, len(sh.loops)))
     for n, lp in enumerate(sh.loops):
@@ -521,6 +522,8 @@ def transform_fn(text, spec):
                 edits.append((lp['open'], lp['open'], '\n' + inv + '\n'))
             if bp:
                 edits.append((lp['open'] + 1, lp['open'] + 1, '\n' + bp + '\n'))
+        if n in spec.get('loopend', {}):
+            edits.append((lp['close'], lp['close'], '\n' + spec['loopend'][n].rstrip() + '\n'))
         if n in lafter:
             edits.append((lp['close'] + 1, lp['close'] + 1, '\n' + lafter[n].rstrip() + '\n'))
 
